@@ -11,6 +11,7 @@ package main
 import (
 	"fmt"
 	"go/ast"
+	"go/constant"
 	"go/token"
 	"go/types"
 	"regexp"
@@ -374,8 +375,44 @@ func (se *ShapeEval) newFrame(fn *FuncRef) *shapeFrame {
 // EvalEntry evaluates a generator entry point (TemplateGenFromString / TsGenFromString): the builder
 // methods it calls on its local builder, in order.
 func (se *ShapeEval) EvalEntry(entry *FuncRef) {
+	se.evalEntryList(entry, entry.Decl.Body.List)
+}
+
+// evalEntryList walks the entry point's statements in order; the arms of error checks (`if err != nil { return … }
+// else { … }`, also produced by helper inlining) are walked too.
+func (se *ShapeEval) evalEntryList(entry *FuncRef, list []ast.Stmt) {
 	info := entry.Pkg.TypesInfo
-	for _, s := range entry.Decl.Body.List {
+	for _, s := range list {
+		switch x := s.(type) {
+		case *ast.BlockStmt:
+			se.evalEntryList(entry, x.List)
+			continue
+		case *ast.IfStmt:
+			se.evalEntryList(entry, x.Body.List)
+			if x.Else != nil {
+				se.evalEntryList(entry, []ast.Stmt{x.Else})
+			}
+			continue
+		}
+		// `for _, part := range []string{b.A, b.B, …} { f.WriteString(part) }`: the writes of the listed fields, in order
+		if rs, ok := s.(*ast.RangeStmt); ok && rs.Value != nil && len(rs.Body.List) == 1 {
+			if lit, ok := unparen(rs.X).(*ast.CompositeLit); ok {
+				if es, ok := rs.Body.List[0].(*ast.ExprStmt); ok {
+					if call, ok := es.X.(*ast.CallExpr); ok && len(call.Args) == 1 && identObj(info, call.Args[0]) == identObj(info, rs.Value) {
+						if f := callee(info, call); f != nil && f.FullName() == "(*os.File).WriteString" {
+							for _, el := range lit.Elts {
+								if fv := fieldVar(info, el); fv != nil {
+									se.writes = append(se.writes, fv)
+								} else {
+									se.errf(el.Pos(), "WriteString of something that is not a builder field")
+								}
+							}
+						}
+					}
+				}
+			}
+			continue
+		}
 		es, ok := s.(*ast.ExprStmt)
 		if !ok {
 			continue
@@ -958,6 +995,9 @@ func (se *ShapeEval) expr(fr *shapeFrame, e ast.Expr) Shape {
 				return &SLit{""}
 			}
 		}
+		if lit, ok := se.tableField(fr, x); ok {
+			return &SLit{lit}
+		}
 		return se.hole(fr, "s", e)
 	case *ast.CallExpr:
 		f := callee(info, x)
@@ -1449,4 +1489,62 @@ func (se *ShapeEval) builderWrite(fr *shapeFrame, call *ast.CallExpr) bool {
 		return true
 	}
 	return false
+}
+
+// tableField: `T[k].f` (directly or through a local bound once to `T[k]`) where T is a package-level map that nothing
+// assigns, k a mode flag whose value the configuration fixes, and the selected entry a struct literal whose field f is
+// a constant string — the names a builder picks per mode from a table instead of an if.
+func (se *ShapeEval) tableField(fr *shapeFrame, sel *ast.SelectorExpr) (string, bool) {
+	info := fr.info
+	base := unparen(sel.X)
+	if o := identObj(info, base); o != nil && fr.pc != nil && fr.pc.defs != nil && fr.pc.defs.count[o] == 1 && fr.pc.defs.single[o] != nil {
+		base = unparen(fr.pc.defs.single[o])
+	}
+	ix, ok := base.(*ast.IndexExpr)
+	if !ok {
+		return "", false
+	}
+	tv, ok := identObj(info, ix.X).(*types.Var)
+	if !ok || tv.Pkg() == nil || tv.Parent() != tv.Pkg().Scope() {
+		return "", false
+	}
+	key, known := se.configValue(fr, ix.Index)
+	if !known {
+		return "", false
+	}
+	init, assigned := pkgVarInit(se.c, tv)
+	lit, ok := init.(*ast.CompositeLit)
+	if !ok || assigned {
+		return "", false
+	}
+	pinfo := se.c.Pkgs[tv.Pkg().Path()].TypesInfo
+	for _, el := range lit.Elts {
+		kv, ok := el.(*ast.KeyValueExpr)
+		if !ok {
+			return "", false
+		}
+		cv := constOf(pinfo, kv.Key)
+		if cv == nil || cv.Kind() != constant.Bool || constant.BoolVal(cv) != key {
+			continue
+		}
+		entry, ok := kv.Value.(*ast.CompositeLit)
+		if !ok {
+			return "", false
+		}
+		st := structOf(pinfo.TypeOf(entry))
+		for i, fe := range entry.Elts {
+			if fkv, ok := fe.(*ast.KeyValueExpr); ok {
+				if id, ok := fkv.Key.(*ast.Ident); ok && id.Name == sel.Sel.Name {
+					return constString(pinfo, fkv.Value)
+				}
+				continue
+			}
+			if st != nil && i < st.NumFields() && st.Field(i).Name() == sel.Sel.Name {
+				return constString(pinfo, fe)
+			}
+		}
+		// a field the entry does not mention is the zero string
+		return "", true
+	}
+	return "", false
 }
